@@ -1,5 +1,6 @@
 import os
 import gzip
+import signal
 import logging
 import pysyncobj.pickle as pickle
 
@@ -194,6 +195,15 @@ class Serializer(object):
         if isLast:
             self.__incomingTransmissionFile.close()
             self.__incomingTransmissionFile = None
+            if self.__useFork and self.__pid > 0:
+                # A child of ours is still writing a dump of an older state: it must not replace the
+                # snapshot that is installed now.
+                try:
+                    os.kill(self.__pid, signal.SIGKILL)
+                    os.waitpid(self.__pid, 0)
+                except OSError:
+                    pass
+                self.__pid = 0
             try:
                 atomicReplace(tmpFile, self.__fileName)
             except:
